@@ -44,7 +44,8 @@ Conformance(rec) ==
   LET r == Replay(rec) IN
   \* buffer_size < max_workers (or 0) is outside the protocol: the code
   \* refuses before anything is pulled; anything else does not conform
-  IF rec.buf < rec.w \/ rec.buf < 1 THEN (IF rec.end = "refused" THEN 0 ELSE 1)
+  IF rec.buf < rec.w \/ rec.buf < 1
+  THEN (IF rec.end = "refused" \/ (rec.end = "closed" /\ Len(rec.events) <= 1) THEN 0 ELSE 1)
   ELSE IF rec.end = "refused" THEN 1
   ELSE IF r.at # 0 THEN r.at
   ELSE IF rec.deadlock
